@@ -30,7 +30,7 @@ def make_plan(ths, tier, rnd):
 
 
 def run(tier, replay):
-    return modelcheck.run(PROP, tier, replay, make_plan,
+    return modelcheck.run(PROP, tier, replay, make_plan, design=[("pend", {"maxels": 1, "maxid": 3, "maxasserts": 2}), ("poset", {"maxels": 2, "maxid": 2, "maxasserts": 2, "thorough_only": {"maxels": 3, "maxid": 3, "maxasserts": 3}})],
                           explanation="histories: every ApiGen history of the scope (2 pre-created elements per type, "
                                       "<=3 calls, <=2 assertions, close_until stopping at evaluation 0/1) plus seeded random "
                                       "histories; oracle: naive evaluation of the reference stages on the dumped closed model "
